@@ -32,8 +32,7 @@ Section Import.
         else if beq (xr_type r) s_purl || beq (xr_type r) s_rdf_purl then
           match from_string pparse (xr_locator r) with
           | Some p => spdx_refs_loop rest {| i_name := p_name p; i_purl := Some p; i_cpes := i_cpes acc |}
-          | None => (* pkg.Name = packageURL.Name of the zero value *)
-                    spdx_refs_loop rest {| i_name := []; i_purl := i_purl acc; i_cpes := i_cpes acc |}
+          | None => spdx_refs_loop rest acc   (* rejected purl: only a warning *)
           end
         else spdx_refs_loop rest acc
     end.
